@@ -25,6 +25,9 @@ type UnitResult struct {
 func (p *Program) encodeUnit(c *Contract) *UnitResult {
 	res := &UnitResult{Key: c.Key(), Contract: c}
 	fn := p.fnByKey[c.Key()]
+	if fn == nil {
+		fn = p.anonByKey[c.Key()]
+	}
 	if fn == nil || len(fn.Blocks) == 0 {
 		res.Missing = true
 		return res
@@ -85,6 +88,16 @@ func (p *Program) encodeUnit(c *Contract) *UnitResult {
 				shows = append(shows, ShowVar{Name: nm, Term: nm, Type: ft})
 			}
 		}
+	}
+	// free variables of a function literal under contract: arbitrary values (captured variables are cells)
+	for _, fv := range fn.FreeVars {
+		n := e.declare("|fv."+fv.Name()+"|", e.sortOf(fv.Type()))
+		e.assume("true", e.typeFact(n, fv.Type(), st0))
+		if isPointerTo(fv.Type()) {
+			e.assume("true", fmt.Sprintf("(not (= %s 0))", n))
+		}
+		f.vals[fv] = n
+		f.params["fv_"+fv.Name()] = CVal{S: n, T: fv.Type()}
 	}
 	// a package initialiser is verified for its first (only effective) run
 	if fn.Synthetic != "" && fn.Name() == "init" && fn.Pkg != nil {
